@@ -1,4 +1,7 @@
-"""Per-property configuration of the runner (tools/check.py)."""
+"""Per-property configuration of the runner (tools/check.py): loaded from tools/props/Cxx.py (CONF)."""
+import glob
+import importlib.util
+import os
 
 TRUSTED_COMMON = [
     "Coq 8.16.1 kernel and its vm_compute bytecode VM (no native_compute)",
@@ -6,24 +9,19 @@ TRUSTED_COMMON = [
     "the hand-written Gallina model is tied to /repo only by the correspondence evaluated on this run's cases",
 ]
 
-PROPS = {
-    "C07": {
-        "judge": "CDI.Judge07.judge07 (corr07: model = observed; oracle07: grammar decision procedures on observed outputs)",
-        "trusted": ["UTF-8 decoding never maps a byte >= 0x80 to an ASCII rune (the model is byte-level); swept by the harness"],
-        "assumptions": ["Go strings are byte strings; for ... range decodes UTF-8"],
-        "search": [(1001, "thorough")],
-    },
-    "C15": {
-        "judge": "CDI.Judge15.judge15",
-        "trusted": ["byte-level modelling of Go's rune iteration; the k8s regular expressions are modelled by explicit matchers, corresponded against the real matcher through the verif export hook"],
-        "assumptions": ["Go map iteration order is irrelevant to the property: ParseAnnotations results are compared grouped per key and sorted"],
-        "search": [(1001, "thorough")],
-    },
-    "C06": {
-        "judge": "CDI.Judge06.judge06",
-        "trusted": ["tools/gen_versions.py (regex translator of specs-go/version.go: version constants, validSpecVersions table, trivially false predicates)",
-                    "golang.org/x/mod/semver is modelled only on vX.Y.Z triples (the table entries), checked by ver_order_on_table"],
-        "assumptions": ["the bodies of requiresV040..V070 are hand-modelled and corresponded; the table and predicate attachment are regenerated"],
-        "search": [(1001, "thorough")],
-    },
-}
+
+def _load():
+    props, checks = {}, {}
+    here = os.path.join(os.path.dirname(os.path.abspath(__file__)), "props")
+    for path in sorted(glob.glob(os.path.join(here, "C*.py"))):
+        pid = os.path.basename(path)[:-3]
+        spec = importlib.util.spec_from_file_location("props_" + pid, path)
+        mod = importlib.util.module_from_spec(spec)
+        spec.loader.exec_module(mod)
+        props[pid] = mod.CONF
+        if getattr(mod, "CHECK", None):
+            checks[pid] = mod.CHECK
+    return props, checks
+
+
+PROPS, CHECKS = _load()
